@@ -16,6 +16,13 @@ def nontrivial(case, impl):
     return len(case.get("data", b"x")) > 0
 
 
+def show_case(c):
+    """human-readable form of a case for evidence samples and replay files"""
+    if "text" in c and "opts" in c:
+        return f"options={c['opts']} program={c['text']!r}"
+    return c["req"]
+
+
 # --------------------------------------------------------------------------- images
 
 def img_classify(case, impl, why):
@@ -78,8 +85,8 @@ def _img_search(pid, tier, findings):
             continue
         why = orc(c, i)
         if why:
-            klass = img_classify(c, i, why) if m == i else None
-            if not any(f["status"] == "known" and f["class"] == klass for f in findings):
+            klass = img_classify(c, i, why)
+            if not (m == i and any(f["status"] == "known" and f["class"] == klass for f in findings)):
                 found.append({"request": c["req"], "kind": c["kind"], "impl": i[:300], "model": m[:300],
                               "why": why, "class": klass})
     return found, len(cases)
@@ -112,10 +119,8 @@ for _pid, _rule in (
     PROPS[_pid] = {
         "lean": IMG_LEAN + [f"CocoVerif.Props.{_pid}"],
         "lean_extra": ["CocoVerif.Props.Lemmas.Img", "CocoVerif.Model.Img", "CocoVerif.Spec.Img"],
-        "suites": ["img"],
-        "relevant": IMG_RELEVANT[_pid],
-        "oracle": OI.ORACLES[_pid],
-        "classify": img_classify,
+        "suites": [{"name": "img", "relevant": IMG_RELEVANT[_pid], "oracle": OI.ORACLES[_pid],
+                    "classify": img_classify}],
         "search": _img_search,
         "rule": _rule,
         "trusted": IMG_TRUSTED,
@@ -123,10 +128,134 @@ for _pid, _rule in (
     }
 
 
+# --------------------------------------------------------------------------- transpiler
+
+import oracles_b09 as OB  # noqa: E402
+
+B09_LEAN_EXTRA = ["CocoVerif.Model.Ast", "CocoVerif.Model.Emit", "CocoVerif.Model.Visit", "CocoVerif.Model.Passes",
+                  "CocoVerif.Model.Compile", "CocoVerif.Model.ProcBank", "CocoVerif.Model.Sexp"]
+B09_TRUSTED = [
+    "modelled, not verified: parsimonious + Python `re` (the front end: text -> parse tree -> object graph is executed by the "
+    "real code and handed to the model as an S-expression dump; harness/dump_ast.py is part of the tie), Python float repr "
+    "(numeric literals are carried by their repr), pydantic/YAML loading of the string-size map, argparse",
+    "no Color BASIC or BASIC09 interpreter exists offline: what BASIC09 makes of emitted text is harness/b09text.py and "
+    "Spec/* (written from the language manuals)",
+]
+
+
+def b09_ok_with_deps(c):
+    return c.get("fmt") == "b09" and c["opts"]["flags"][5] == "1" and c["opts"]["flags"][6] == "0"
+
+
+def c13_classify(case, impl, why):
+    if "is also a library procedure" in why:
+        return "procname-equals-library-procedure"
+    if "unreachable procedures bundled" in why:
+        # a RUN inside a comment of the user's program is taken for a call
+        text = OB.out_text(impl) or ""
+        prog = OB.T.split_procedures(text.rstrip("\n"))[-1][1]
+        named = {m.group(1) for l in prog for cm in OB.re.findall(r"\(\*.*?\*\)", l)
+                 for m in OB.re.finditer(r"(?i)RUN\s+(\w+)", cm)}
+        extra = set(OB.re.findall(r"'([^']+)'", why))
+        procs, _, edges = OB.lib()
+        if extra and extra <= OB.reach(edges, named):
+            return "run-inside-comment"
+    return None
+
+
+def _b09_search(oracle, relevant):
+    def search(pid, tier, findings):
+        import suite_b09
+        from common import rng
+        # a fresh, larger stream of programs and options under a different tag
+        old = suite_b09.rng
+        suite_b09.rng = lambda tag: rng(tag + "-search-" + pid)
+        try:
+            res = suite_b09.run("quick")
+        finally:
+            suite_b09.rng = old
+        found = []
+        P = PROPS[pid]
+        cls = P["suites"][0].get("classify", lambda c, i, w: None)
+        for c, i, m in zip(res["cases"], res["impl"], res["model"]):
+            if not relevant(c):
+                continue
+            why = oracle(c, i)
+            if why:
+                klass = cls(c, i, why)
+                if not (m == i and any(f["status"] == "known" and f["class"] == klass for f in findings)):
+                    found.append({"request": c["req"], "kind": c["kind"], "impl": i[:300], "model": m[:300],
+                                  "why": why, "class": klass, "readable": show_case(c)[:600]})
+        return found, len(res["cases"])
+    return search
+
+
+def _c13_oracle(c, i):
+    return OB.c13(c, i, c.get("aux", {}).get("nodeps"))
+
+
+PROPS["C13"] = {
+    "lean": ["CocoVerif.Props.C13"],
+    "lean_extra": B09_LEAN_EXTRA + ["CocoVerif.Props.Lemmas.ProcBank"],
+    "suites": [
+        {"name": "b09", "relevant": b09_ok_with_deps, "oracle": _c13_oracle, "classify": c13_classify},
+        {"name": "procbank", "relevant": lambda c: True},
+    ],
+    "search": _b09_search(_c13_oracle, b09_ok_with_deps),
+    "rule": "b09: generated / example / unit-test / mutated programs converted with output_dependencies under several option "
+            "sets (string sizes 32/80/255/1, procedure names incl. one that collides with a library procedure); procbank: "
+            "synthetic libraries with hostile lines (RUN inside literals and comments, odd headers, placeholders in quotes) "
+            "and single-line probes of the three regular expressions; distinct = distinct request, non-trivial = non-empty input",
+    "trusted": B09_TRUSTED,
+    "assumptions": ["`RUN name` outside string literals and comments is a call (b09text.py); OS-9 system modules: gfx, gfx2, syscall, inkey"],
+}
+
+
+B09_ORACLES = {"C13": _c13_oracle}
+
+
+def b09_any(c):
+    return c.get("fmt") == "b09"
+
+
+def register_b09(pid, lean, oracle, classify, rule, relevant=b09_any, tie=None, extra_suites=(), lean_extra=(),
+                 assumptions=()):
+    PROPS[pid] = {
+        "lean": list(lean),
+        "lean_extra": B09_LEAN_EXTRA + list(lean_extra),
+        "suites": [{"name": "b09", "relevant": relevant, "oracle": oracle, "classify": classify, "tie": tie}]
+                  + list(extra_suites),
+        "search": _b09_search(oracle, relevant),
+        "rule": rule,
+        "trusted": B09_TRUSTED,
+        "assumptions": list(assumptions),
+    }
+    B09_ORACLES[pid] = oracle
+
+
+register_b09(
+    "C14", ["CocoVerif.Props.C14"], OB.c14, OB.c14_classify,
+    "every RUN call in the user's procedure of every converted program of the transpiler suite (generated programs cover all "
+    "device statements, convertible functions, PRINT/HPRINT items, INPUT wrappers, empty-DATA filters with literal, variable, "
+    "array, expression and nested-function operands); the call's arity and syntactic argument kinds are compared with the "
+    "`param` lines of ecb.b09 read independently; distinct = distinct request",
+    tie=OB.c14_tie,
+    assumptions=["argument kind = syntactic category of the emitted argument (string literal / name ending in $ / record variable / else numeric)"],
+)
+
+
 # --------------------------------------------------------------------------- witnesses / replay
 
 def replay_request(pid, request):
     """Run one stored request against the real code and judge it with the property oracle."""
+    if request.startswith("b09 "):
+        import impl_b09
+        from common import unhex
+        _, flags, storage, pn, sizes, text = request.split(" ")
+        szs = [(kv.split("=")[0], int(kv.split("=")[1])) for kv in unhex(sizes).decode().split(",") if kv]
+        w = {"type": "b09", "text": unhex(text).decode(), "oracle": pid,
+             "opts": {"flags": flags, "storage": int(storage), "procname": unhex(pn).decode(), "sizes": szs}}
+        return replay_witness({"property": pid, "id": "replay", "witness": w})
     if request.startswith("img "):
         import impl_img
         from common import unhex
@@ -155,4 +284,14 @@ def replay_witness(f):
         case = {"fmt": parts[1], "kind": w.get("kind", "valid"), "req": w["request"], "data": unhex(parts[-1])}
         case.update(w.get("case", {}))
         return OI.ORACLES[w.get("oracle", f["property"])](case, impl)
+    if isinstance(w, dict) and w.get("type") == "b09":
+        import impl_b09
+        o = w["opts"]
+        impl = impl_b09.convert(w["text"], o)
+        case = {"fmt": "b09", "kind": "witness", "text": w["text"], "opts": o, "req": "b09", "aux": {}}
+        if o["flags"][5] == "1" and impl.startswith("ok "):
+            case["aux"]["nodeps"] = impl_b09.convert(w["text"], dict(o, flags=o["flags"][:5] + "0" + o["flags"][6:]))
+        orc = B09_ORACLES[w.get("oracle", f["property"])]
+        return orc(case, impl)
     raise ValueError(f"unknown witness type in {f['id']}")
+
